@@ -165,6 +165,9 @@ func oddUIDTail(i int) string {
 	return "-" + tails[(i/4)%len(tails)]
 }
 
+// mixedUsers: who sends the mixed reviews (five entries: a phase may substitute other user classes of the same number)
+var mixedUsers = []string{"u", "u", "exuser", "exns", "Exuser"}
+
 // webhookMixed: n reviews of the given kind ("" = every kind) through the real handler from 16 clients
 func webhookMixed(c *Ctx, n int, kind string, namespaces nsByName, newAdm func(lister admission.PodLister) *admission.Admission) {
 	r := NewRng(c.Seed + 1616)
@@ -192,7 +195,7 @@ func webhookMixed(c *Ctx, n int, kind string, namespaces nsByName, newAdm func(l
 	for i := range items {
 		a := genAdmitCase(r.Fork(), i, AdmitKnobs{Kind: kind, FaultPct: 12, SynPct: 0, SubPct: 25})
 		a.NS = pick(r, nsNames)
-		a.User = pick(r, []string{"u", "u", "exuser", "exns", "Exuser"})
+		a.User = pick(r, mixedUsers)
 		a.ExpireAfter, a.Remaining, a.NSErr, a.ListErr = -1, 0, false, false
 		if a.Res == "namespaces" {
 			a.Name = a.NS
